@@ -10,6 +10,7 @@ pub mod c13;
 pub mod c14;
 pub mod c16;
 pub mod c17;
+pub mod c18;
 pub mod c19;
 pub mod selftest;
 
@@ -30,6 +31,7 @@ pub fn dispatch(name: &str, args: &[String]) -> i32 {
 		"c14" => c14::run(args),
 		"c16" => c16::run(args),
 		"c17" => c17::run(args),
+		"c18" => c18::run(args),
 		"c19" => c19::run(args),
 		"replay" => replay(args),
 		_ => {
@@ -63,6 +65,7 @@ fn replay(args: &[String]) -> i32 {
 		"c14" => c14::replay(&v["replay"]),
 		"c16" => c16::replay(&v["replay"]),
 		"c17" => c17::replay(&v["replay"]),
+		"c18" => c18::replay(&v["replay"]),
 		"c19" => c19::replay(&v["replay"]),
 		_ => {
 			eprintln!("no replay handler for property {}", prop);
